@@ -288,18 +288,21 @@ func eq(a []tlog.Hash, b []rfc6962.Hash) bool {
 func Run(r *fw.Run) {
 	tmax := r.Pick(130, 300)
 	r.Bounds["t_max"] = tmax
-	r.Bounds["patterns"] = []string{"all distinct", "all equal", "period 3"}
+	r.Bounds["patterns"] = []string{"all distinct", "all equal", "period 3", "record lengths 0..65536 around block and buffer sizes (t <= 48)"}
 	r.Bounds["closed_world"] = "t<=5, pool of 8 true node hashes, all proofs of length 0..4, all n, roots and leaves over the pool"
 	r.Rule = "state = (pattern, t, n) with its honest proof; transitions = every single mutation of every component (proof element <- every pool hash / bit flip / delete / insert / swap / reverse; n over [-1,t+1]; t over [-1,t_max+1] and huge; leaf/old root and root <- pool) plus the closed-world enumeration. Each tuple is executed on tlog.Check* and on the RFC 9162 algorithm; non-trivial = honest tuple or mutant that remains valid; outcome = accepted/rejected per checker kind"
 	r.Assume = []string{"SHA-256 collision resistance (acceptance equivalence is exact anyway: both sides compute the same hash expression)", "sizes between the enumerated bound and 2^62 are probed at 2^31, 2^40 and around 2^62..2^63-1 only"}
 	type job struct{ pat, t int }
 	var jobs []job
-	for pat := 0; pat < 3; pat++ {
+	for pat := 0; pat < 4; pat++ {
 		for t := tmax; t >= 1; t-- {
+			if pat == 3 && t > 48 {
+				continue // the pattern with varied record lengths: two rounds over the 21 lengths
+			}
 			jobs = append(jobs, job{pat, t})
 		}
 	}
-	logs := make([]*tlogx.Log, 3)
+	logs := make([]*tlogx.Log, 4)
 	for pat := range logs {
 		lg, err := tlogx.Build(tlogx.Pattern(pat, tmax))
 		if err != nil {
